@@ -211,6 +211,10 @@ def extract(tu, flags, roots, out, only=None, no_patterns=False):
     cmd += ["--"] + flags + ["-resource-dir", resource_dir(), "-w"]
     r = run(cmd)
     if r.returncode != 0 or not os.path.exists(out):
+        try:
+            os.remove(out)
+        except OSError:
+            pass
         raise AnalysisBroken("extractor failed on %s:\n%s" % (tu, (r.stderr or "")[-4000:]))
     return out
 
